@@ -35,7 +35,7 @@ struct Holder { int conn = -1; std::array<std::uint8_t, 32> key{}; };
 Plan gen_c20(sk::Rng& r, Tier) {
     Plan p;
     gen_net_knobs(p, r);
-    p.knobs["difficulty"] = r.pick<std::int64_t>({0, 1, 4, 8});
+    p.knobs["difficulty"] = r.chance(1, 2) ? r.pick<std::int64_t>({0, 1, 4, 8}) : r.range(1, 13);   // every residue modulo 8, across a byte boundary
     p.knobs["cooldown"] = r.pick<std::int64_t>({0, 1, 5, 5, 60});
     const int n = static_cast<int>(r.range(2, 9));
     for (int i = 0; i < n; ++i) {
@@ -44,7 +44,7 @@ Plan gen_c20(sk::Rng& r, Tier) {
         op.k = "offer";
         op.a = {static_cast<std::int64_t>(r.below(3)),
                 r.pick<std::int64_t>({0, 0, 0, 0, 1, 2}),
-                r.pick<std::int64_t>({0, 0, 0, 1, 1, 2, 3}),
+                r.pick<std::int64_t>({0, 0, 0, 1, 4, 4, 2, 3}),
                 r.pick<std::int64_t>({0, 10, 900, 1000, 4999, 5000, 5001, 61000}),
                 static_cast<std::int64_t>(r.below(8))};
         p.ops.push_back(op);
@@ -109,6 +109,7 @@ void exec_c20(const Plan& p, Ctx& ctx) {
         switch (pow_kind) {
             case 0: nonce = ref_solve_handshake_pow(me.id, kN, pub, difficulty); break;
             case 1: nonce = difficulty > 0 ? ref_find_invalid_handshake_nonce(me.id, kN, pub, difficulty) : 12345; break;
+            case 4: nonce = difficulty > 0 ? ref_find_near_miss_handshake_nonce(me.id, kN, pub, difficulty) : 12345; if (difficulty > 0) ctx.boundary("offer_pow_one_bit_short"); break;  // exactly one zero bit short
             case 2: nonce = ref_solve_handshake_pow(me.id, other_responder, pub, std::max(difficulty, 1), 1000); break;   // valid for another responder
             default: nonce = ref_solve_handshake_pow(me.id, kN, pub ^ 0x5a5a, std::max(difficulty, 1), 2000); break;      // valid for another key
         }
@@ -211,7 +212,7 @@ Scenario make_c20() {
     s.real_components = {"Node (handle_transport_handshake, perform_handshake)", "SessionManager (accept_loop, handle_pending_handshake, replace_session)", "KeyManager", "ReputationManager", "Message codec"};
     s.stub_components = {"OS: threads -> fibers, sockets -> simulated TCP, clock, entropy", "initiators are scripted processes using the repository's codec"};
     s.assumptions = {"one-directional: a valid offer may still be dropped (session preference rules); only invalid offers are required to be refused without side effects"};
-    s.rule = "plan = PoW difficulty {0,1,4,8}, cooldown {0,1,5,60 s}, network knobs + 2..9 offers (3 claimed ids x {own key, invalid public value, other valid key} x {valid, invalid, valid-for-other-responder, valid-for-other-key PoW} x gaps 0 ms..61 s) with session probes; non-trivial = an invalid offer (bad key or bad PoW), esp. inside the cooldown of an earlier success; distinct = plan hash";
+    s.rule = "plan = PoW difficulty 0..13, cooldown {0,1,5,60 s}, network knobs + 2..9 offers (3 claimed ids x {own key, invalid public value, other valid key} x {valid, invalid, one-zero-bit-short, valid-for-other-responder, valid-for-other-key PoW} x gaps 0 ms..61 s) with session probes; non-trivial = an invalid offer (bad key or bad PoW), esp. inside the cooldown of an earlier success; distinct = plan hash";
     s.gen = gen_c20; s.exec = exec_c20; s.kernel_knobs = net_knobs;
     s.quick_runs = 2500; s.thorough_runs = 100000; s.quick_secs = 50; s.thorough_secs = 900;
     return s;
